@@ -46,12 +46,18 @@ def decision_case(ctx):
     """no read modification: -m/-M with LEN, LEN:, :LEN2, LEN:LEN2 x pair-filter; expected destination recomputed"""
     rng = ctx.rng
     r1, r2 = pipe.gen_reads(rng, rng.randint(4, 9), [], [], True)
+    # zero-length mates (an adapter dimer after trimming, an empty record in the input) on either side
+    r1 = [(n_, "", "") if rng.random() < 0.15 else (n_, s_, q_) for n_, s_, q_ in r1]
+    r2 = [(n_, "", "") if rng.random() < 0.15 else (n_, s_, q_) for n_, s_, q_ in r2]
     mode = rng.choice([None, "any", "both", "first"])
     a, b = rng.randint(0, 30), rng.randint(0, 30)
     form = rng.choice(["a", "a:", ":b", "a:b"])
     spec = {"a": f"{a}", "a:": f"{a}:", ":b": f":{b}", "a:b": f"{a}:{b}"}[form]
     which = rng.choice(["-m", "-M"])
     argv = ["--no-index", which, spec]
+    if rng.random() < 0.35:
+        # the text-file writers sit in front of the filters (wrapped for paired-end data); they must pass every pair on
+        argv += ["-a", "a0=AAAGGGCCC", "--action", "none", rng.choice(["--info-file", "--rest-file", "--wildcard-file"]), "{dir}/text.txt"]
     red = rng.random() < 0.6
     if red:
         n = "too-short" if which == "-m" else "too-long"
